@@ -53,7 +53,8 @@ Print Assumptions C03_crash_recovers_prefix.
 Theorem C03_recover_succeeds : forall evs d,
   drun dinit evs = Some d -> d_bolt d <> [] ->
   forall d1, dstep d DCrash = Some d1 ->
-  exists n rr d2, newest (d_bolt d) = Some n /\ rec_root (d_segdocs d) (br_segs n) = Some rr
+  exists n rr d2, newest (d_bolt d) = Some n
+    /\ rec_root (d_segdocs d) (sort_segs (br_segs n)) = Some rr
     /\ dstep d1 DRecover = Some d2
     /\ root (d_core d2) = rr /\ internal (d_core d2) = br_int n /\ epoch (d_core d2) = br_epoch n
     /\ d_bolt d2 = d_bolt d.
@@ -61,15 +62,16 @@ Proof. exact recover_succeeds. Qed.
 Print Assumptions C03_recover_succeeds.
 
 (* every acknowledged batch is covered by the newest committed record, in every reachable state
-   (up or down) of a history without rollbacks *)
+   (up or down); a rollback discards the batches after the rollback point together with their
+   acknowledgements *)
 Theorem C03_acked_survive : forall evs d,
-  no_rollback evs = true -> drun dinit evs = Some d ->
+  drun dinit evs = Some d ->
   forall k, In k (d_acked d) -> (k <= covered d)%nat.
 Proof. exact acked_survive. Qed.
 Print Assumptions C03_acked_survive.
 
 Theorem C03_acked_in_recovered_prefix : forall evs d d1 d2,
-  no_rollback evs = true -> drun dinit evs = Some d ->
+  drun dinit evs = Some d ->
   dstep d DCrash = Some d1 -> dstep d1 DRecover = Some d2 ->
   exists n, (forall k, In k (d_acked d) -> (k <= n)%nat) /\ (n <= length (eff evs))%nat
     /\ forall id, root_lookup (root (d_core d2)) id = replay (firstn n (eff evs)) id.
@@ -110,8 +112,8 @@ Theorem C03_recovered_state_invariant : forall evs d d1,
 Proof. exact recovered_state_DInv. Qed.
 Print Assumptions C03_recovered_state_invariant.
 
-(* with rollbacks: what is covered only grows between rollbacks, and every batch acknowledged
-   since the last rollback is covered (only a rollback can discard an acknowledged batch) *)
+(* between rollbacks what is covered only grows and acknowledgements are only added (only a
+   rollback can discard an acknowledged batch) *)
 Theorem C03_acked_since_rollback_survive : forall pre post d0 d,
   drun dinit pre = Some d0 -> no_rollback post = true -> drun d0 post = Some d ->
   (covered d0 <= covered d)%nat
@@ -126,19 +128,20 @@ Theorem C03_segdocs_consistent : forall evs d,
 Proof. exact segdocs_consistent. Qed.
 Print Assumptions C03_segdocs_consistent.
 
-(* no_name_reuse (I6), the part that holds: a freshly allocated segment id is not registered, not
-   named by a committed record or the open transaction, not in the root, not a merge output.
-   (Not provable: "not the name of a file on disk" — DFileWritten accepts unallocated ids.) *)
-Theorem C03_no_name_reuse_partial : forall evs d newsid b io d',
+(* no_name_reuse (I6): a freshly allocated segment id is not the name of a file on disk, not
+   registered, not named by a committed record or the open transaction, not in the root, not a
+   merge output *)
+Theorem C03_no_name_reuse : forall evs d newsid b io d',
   drun dinit evs = Some d ->
   dstep d (DCore (EIntroduce newsid b io)) = Some d' -> batch_updates b <> [] ->
-  ~ In newsid (map fst (d_segdocs d))
+  ~ In newsid (d_files d)
+  /\ ~ In newsid (map fst (d_segdocs d))
   /\ (forall r, In r (d_bolt d) -> ~ In newsid (named_by r))
   /\ (forall r, d_tx d = Some r -> ~ In newsid (named_by r))
   /\ ~ In newsid (map sid (root (d_core d)))
   /\ ~ In newsid (inflight_news (d_core d)).
-Proof. exact no_name_reuse_partial. Qed.
-Print Assumptions C03_no_name_reuse_partial.
+Proof. exact no_name_reuse. Qed.
+Print Assumptions C03_no_name_reuse.
 
 (* the enabling conditions of DPrepare are satisfiable in every running state without an open
    transaction: the persister can always write down the current root *)
@@ -149,3 +152,19 @@ Theorem C03_prepare_current_root_enabled : forall evs d,
                             (internal (d_core d)))) <> None.
 Proof. exact prepare_current_root_enabled. Qed.
 Print Assumptions C03_prepare_current_root_enabled.
+
+(* clean_close: when the persister has caught up, reopening shows exactly what the index had *)
+Theorem C03_clean_close : forall evs d d1 d2,
+  drun dinit evs = Some d -> d_up d = true -> covered d = d_batches d ->
+  dstep d DCrash = Some d1 -> dstep d1 DRecover = Some d2 ->
+  forall id, root_lookup (root (d_core d2)) id = root_lookup (root (d_core d)) id.
+Proof. exact clean_close. Qed.
+Print Assumptions C03_clean_close.
+
+Theorem C03_recovery_idempotent : forall evs d d1,
+  drun dinit evs = Some d -> dstep d DRecover = Some d1 ->
+  d_up d1 = true /\ covered d1 = d_batches d1
+  /\ forall d2 d3, dstep d1 DCrash = Some d2 -> dstep d2 DRecover = Some d3 ->
+       forall id, root_lookup (root (d_core d3)) id = root_lookup (root (d_core d1)) id.
+Proof. exact recovery_idempotent. Qed.
+Print Assumptions C03_recovery_idempotent.
